@@ -167,7 +167,7 @@ def check(prop, tier):
         for line in lines:
             m = re.search(r'\\"k\\":(\d+).{0,4000}?\\"exit\\":(\d)', line)
             strata.setdefault((min(int(m.group(1)), 2), m.group(2)) if m else '?', []).append(line)
-        n = 540 if tier == 'quick' else 8000
+        n = 540 if tier == 'quick' else 4000
         pick = []
         for k, ls in sorted(strata.items()):
             pick += rnd.sample(ls, min(len(ls), n // len(strata)))
@@ -212,19 +212,30 @@ def check(prop, tier):
                 all_traces.append(tr)
         nforced = len(all_traces)
         # 3. every forced run's hook trace must be a behaviour of the model
-        tf = os.path.join(work, 'traces.ndjson')
-        with open(tf, 'w') as f:
-            for tr in all_traces:
-                f.write(json.dumps({'id': tr['id'], 'scn': tr['scn'], 'ev': tr['ev']}) + '\n')
         accepted = set()
         if all_traces:
-            st = tlc('Trace_Push', constants={'Paths': p_tool.PATHS_C, 'W': 4}, cfg_body=TRACE_CFG, env={'RQ_TRACES': tf}, tag='trace-push', workers=8, heap='8g')
-            res.add_tlc(st, 'Trace_Push')
-            with open(st['out'], errors='replace') as f:
-                for line in f:
-                    m = re.match(r'<<"ACCEPTED", (\d+), "(\w+)">>', line)
-                    if m:
-                        accepted.add(int(m.group(1)))
+            # in chunks: the search over silent steps costs about 1500 distinct states per trace, and a chunk must
+            # finish well inside the TLC time limit also on a loaded machine
+            CH = 3000
+            for c0 in range(0, len(all_traces), CH):
+                tf = os.path.join(work, 'traces.%d.ndjson' % c0)
+                with open(tf, 'w') as f:
+                    for tr in all_traces[c0:c0 + CH]:
+                        f.write(json.dumps({'id': tr['id'], 'scn': tr['scn'], 'ev': tr['ev']}) + '\n')
+                st = tlc('Trace_Push', constants={'Paths': p_tool.PATHS_C, 'W': 4}, cfg_body=TRACE_CFG, env={'RQ_TRACES': tf}, tag='trace-push', workers=8, heap='8g', timeout=2400)
+                if c0 == 0:
+                    res.add_tlc(st, 'Trace_Push')
+                else:
+                    res.cov['states'] += st['distinct']; res.cov['transitions'] += st['states']
+                    for k in ('states', 'distinct', 'wall_s'):
+                        res.cov['parts']['Trace_Push'][k] += st[k]
+                with open(st['out'], errors='replace') as f:
+                    for line in f:
+                        m = re.match(r'<<"ACCEPTED", (\d+), "(\w+)">>', line)
+                        if m:
+                            accepted.add(int(m.group(1)))
+                os.unlink(tf); os.unlink(st['out'])
+            res.cov['parts']['Trace_Push']['wall_s'] = round(res.cov['parts']['Trace_Push']['wall_s'], 1)
             rejected = [tr for tr in all_traces if tr['id'] not in accepted]
             # A rejected trace is a divergence from the algorithm model, not by itself a violation of C06 (DESIGN section 1).
             # It is reported only when it is systematic: the same scenario under the same script is run twice more and
